@@ -4,6 +4,10 @@ package main
 
 import (
 	"runtime"
+
+	"github.com/z7zmey/php-parser/pkg/conf"
+	"github.com/z7zmey/php-parser/pkg/errors"
+	"github.com/z7zmey/php-parser/pkg/verifshim"
 )
 
 func init() { register("retain_check", opRetainCheck) }
@@ -64,4 +68,39 @@ func opRetainCheck(t Task) Result {
 	}
 	res["ok"] = true
 	return res
+}
+
+func init() { register("reparse_check", opReparseCheck) }
+
+// reparse_check: the parser OBJECT is used a second time (Parse called again on it; its scanner is at the end of the input by
+// then, so the second run yields an empty program): the tree the first run returned, its tokens and its positions stay what they were.
+func opReparseCheck(t Task) Result {
+	src := s2b(tStr(t, "src"))
+	ver := parseVersion(t)
+	cfg := conf.Config{Version: ver, ErrorHandlerFunc: func(e *errors.Error) {}}
+	lx := verifshim.NewLexer(src, cfg)
+	var p verifshim.Parser
+	if ver != nil && ver.Major == 5 {
+		p = verifshim.NewParser5(lx, cfg)
+	} else {
+		p = verifshim.NewParser7(lx, cfg)
+	}
+	p.Parse()
+	root := p.GetRootNode()
+	if isNilVertex(root) {
+		return Result{"skip": true}
+	}
+	opts := fpOpts{tokens: true, positions: true, values: true}
+	fp0 := fingerprint(root, opts)
+	for i := 0; i < 3; i++ {
+		p.Parse()
+	}
+	if fingerprint(root, opts) != fp0 {
+		part := "positions"
+		if fingerprint(root, fpOpts{tokens: true, values: true}) != fingerprint(doParse(append([]byte(nil), src...), ver, true).root, fpOpts{tokens: true, values: true}) {
+			part = "tokens-or-structure"
+		}
+		return Result{"changed": "tree-changed-when-its-parser-ran-again", "part": part}
+	}
+	return Result{"ok": true}
 }
